@@ -1,15 +1,21 @@
-"""Provide the Butcher tableau for a sixth-order Runge-Kutta method."""
+"""Provide the Butcher tableau for a sixth-order Runge-Kutta method.
+
+Butcher's seven-stage, sixth-order explicit method (J. C. Butcher, "On Runge-Kutta
+processes of high order", J. Austral. Math. Soc. 4 (1964) 179-194; also
+"Numerical Methods for Ordinary Differential Equations", sect. 325). All 37
+rooted-tree order conditions through order 6 hold exactly in rational arithmetic.
+"""
 import numpy as np
 
 A = np.array([
     [0.0, 0.0, 0.0, 0.0, 0.0, 0.0, 0.0],
-    [1.0/5.0, 0.0, 0.0, 0.0, 0.0, 0.0, 0.0],
-    [3.0/40.0, 9.0/40.0, 0.0, 0.0, 0.0, 0.0, 0.0],
-    [44.0/45.0, -56.0/15.0, 32.0/9.0, 0.0, 0.0, 0.0, 0.0],
-    [19372.0/6561.0, -25360.0/2187.0, 64448.0/6561.0, -212.0/729.0, 0.0, 0.0, 0.0],
-    [9017.0/3168.0, -355.0/33.0, 46732.0/5247.0, 49.0/176.0, -5103.0/18656.0, 0.0, 0.0],
-    [35.0/384.0, 0.0, 500.0/1113.0, 125.0/192.0, -2187.0/6784.0, 11.0/84.0, 0.0]
+    [1.0/3.0, 0.0, 0.0, 0.0, 0.0, 0.0, 0.0],
+    [0.0, 2.0/3.0, 0.0, 0.0, 0.0, 0.0, 0.0],
+    [1.0/12.0, 1.0/3.0, -1.0/12.0, 0.0, 0.0, 0.0, 0.0],
+    [-1.0/16.0, 9.0/8.0, -3.0/16.0, -3.0/8.0, 0.0, 0.0, 0.0],
+    [0.0, 9.0/8.0, -3.0/8.0, -3.0/4.0, 1.0/2.0, 0.0, 0.0],
+    [9.0/44.0, -9.0/11.0, 63.0/44.0, 18.0/11.0, 0.0, -16.0/11.0, 0.0]
 ], dtype=np.float64)
 
-B = np.array([35.0/384.0, 0.0, 500.0/1113.0, 125.0/192.0, -2187.0/6784.0, 11.0/84.0, 0.0], dtype=np.float64)
-C = np.array([0.0, 1.0/5.0, 3.0/10.0, 4.0/5.0, 8.0/9.0, 1.0, 1.0], dtype=np.float64)
+B = np.array([11.0/120.0, 0.0, 27.0/40.0, 27.0/40.0, -4.0/15.0, -4.0/15.0, 11.0/120.0], dtype=np.float64)
+C = np.array([0.0, 1.0/3.0, 2.0/3.0, 1.0/3.0, 1.0/2.0, 1.0/2.0, 1.0], dtype=np.float64)
